@@ -160,3 +160,9 @@ V('C17', 'remote-pool-keeps-stale-diff', 'edb/server/compiler_pool/pool.py',
                 self._sync_lock.release()
 ''', '''            await self._sync_lock.acquire()
 ''', 'C17.R8', 'diff-after-lock')
+
+# round 5: the stored seeded breaks this property's check reports, replayed as variants
+from sa.selftest import VP  # noqa
+VP('C17', 'C17-e1', 'C17.R9', 'sync-before-reply')
+VP('C17', 'C17-e2', 'C17.R1', 'arg=global_schema')
+VP('C17', 'C17-e3', 'C17.R5', 'records-new-state')
